@@ -127,8 +127,12 @@ def run(ctx):
                         kk = k[1] if isinstance(k, tuple) else k
                         want = {"motd": "motd", "current_cli_version": "advertise-version",
                                 "error": "signal-error"}.get(kk)
-                        if want is None or not mentions(
-                                v, lambda x: x[0] == "sub" and x[2] == ("const", want)):
+                        # a documented notice comes from the configuration (its own
+                        # option, or another one that supplies it: a --motd-file);
+                        # further entries are additions, not notices
+                        if want is not None and not mentions(
+                                v, lambda x: (x[0] == "sub" and x[2] == ("const", want)) or
+                                (x[0] == "param" and x[1] in ("config", "options"))):
                             ok = False
                             bad = "welcome[%r] is %s" % (kk, show(v)[:50])
                 ctx.ob("R17.welcome", "make_server builds welcome from the configured notices",
@@ -274,8 +278,11 @@ def run(ctx):
         if not exempt:
             # connection attributes that nothing decides on and no statement or
             # frame carries (counters kept for the log) are not state
+            def _counter_only(e):
+                return counter_only(model, e)
             effects = [e for e in evs[:idx] if (e["k"] in EFFECT_KINDS and not (
-                           e["k"] == "sql" and not e["stmt"].mutating)) or
+                           e["k"] == "sql" and not e["stmt"].mutating) and
+                           not _counter_only(e)) or
                        (e["k"] == "setattr" and e["obj"][0] == "obj" and
                         e["obj"][1] == "WebSocketServer" and e["attr"] in conn_relevant)]
             ok = not effects
@@ -290,8 +297,8 @@ def run(ctx):
         if ok:
             ff = frame_fields(after[0]) or {}
             orig = ff.get("orig")
-            ok = orig is not None and orig[0] == "call" and orig[1] == "json.loads" and \
-                "error" in ff
+            ok = orig is not None and "error" in ff and (
+                (orig[0] == "call" and orig[1] == "json.loads") or is_client_value(orig))
         ctx.ob("R17.err", label + " -> one error frame with orig", ok, r,
                "" if ok else "after the error: frames %s" % [frame_type(e) for e in after])
         mut = [e for e in evs if e["k"] in ("reg_set", "reg_del") and
@@ -580,6 +587,19 @@ def _text_rule(ctx):
            "Autobahn drops the connection" % (nb, len(binders), ", ".join(sorted(binders))))
 
 
+def counter_only(model, e):
+    """a store into a container nothing decides on and no statement or frame
+    carries (event counters kept for the log)"""
+    from ..e5 import relevant_attrs
+    if e["k"] not in ("reg_set", "reg_del"):
+        return False
+    r = e.get("reg")
+    if not (isinstance(r, tuple) and len(r) >= 3 and r[0] in ("reg", "attr") and
+            isinstance(r[1], tuple) and r[1] and r[1][0] == "obj"):
+        return False
+    return r[2] not in relevant_attrs(model, r[1][1])
+
+
 def once_flag_of(model, name):
     """(handler, flag, refusal flags): the boolean / state attribute of the
     connection that is tested before the effects of the handler of `name` and
@@ -612,7 +632,8 @@ def once_flag_of(model, name):
             evs = [e for e, _ in all_events(p)]
             first_eff = None
             for e in evs:
-                if e["k"] in EFFECT_KINDS and e["func"] != "WebSocketServer.send":
+                if e["k"] in EFFECT_KINDS and e["func"] != "WebSocketServer.send" and \
+                        not counter_only(model, e):
                     first_eff = e
                     break
             pc = first_eff["pc"] if first_eff else p.pc
